@@ -100,6 +100,11 @@ func (c *gctx) lit() *Expr {
 	}
 	var b strings.Builder
 	for i := 0; i < n; i++ {
+		if n >= 4 && c.cfg.Unicode && c.chance(1, 2) {
+			// long and wide: many bytes consumed by one expression
+			b.WriteRune([]rune{'é', '日', '日'}[c.r.Intn(3)])
+			continue
+		}
 		b.WriteRune(al[c.r.Intn(len(al))])
 	}
 	e := &Expr{Kind: Lit, Text: b.String()}
